@@ -22,6 +22,12 @@ pub enum Base {
     Spec(GrammarSpec),
     Repo(u16),
     Raw(String),
+    /// G-ast tape (AST-shape-rich grammars)
+    Ast(Vec<u16>),
+    /// G-rec tape with an alternative on every `@vec` rule that does not fit the documented pattern
+    RecWeird(Vec<u16>),
+    /// G-kw tape (no content terminal)
+    Kw(Vec<u16>),
 }
 
 #[derive(Clone, Debug, Serialize, Deserialize)]
@@ -149,6 +155,9 @@ pub fn text_of(c: &Case) -> String {
             g[pick(*i, g.len())].clone()
         }
         Base::Raw(s) => s.clone(),
+        Base::Ast(t) => gen::build_ast(t).render(),
+        Base::RecWeird(t) => gen::build_rec_weird(t).render(),
+        Base::Kw(t) => gen::build_kw(t).render(),
     };
     let mut toks = coarse_tokens(&base);
     for (op, pos, what) in &c.mutations {
@@ -287,6 +296,9 @@ impl Prop for C16 {
         let base = prop_oneof![
             5 => gen::g_lang(gen::LangParams::full()).prop_map(Base::Spec),
             2 => any::<u16>().prop_map(Base::Repo),
+            1 => gen::g_ast().prop_map(Base::Ast),
+            1 => gen::g_rec().prop_map(Base::RecWeird),
+            1 => gen::g_rec().prop_map(Base::Kw),
             1 => "\\PC{0,80}".prop_map(Base::Raw),
             1 => "[A-Za-z:;|' \\n{}()\\[\\]*+?=,0-9/@.]{0,80}".prop_map(Base::Raw),
         ];
@@ -326,7 +338,7 @@ impl Prop for C16 {
         "case = grammar text: generated valid text using every construct of the grammar language \
          (alternatives, EMPTY, named and ?= assignments, inline strings in both quote styles, ? * + \
          with and without [separator], rule / production / terminal meta-data, production kinds, user \
-         meta-data), or a .rustemo file of the repository, or a raw string; then 0..4 token / \
+         meta-data), or an AST-shape-rich grammar (G-ast; G-rec with an extra `@vec` alternative outside the documented pattern; keyword-only G-kw), or a .rustemo file of the repository, or a raw string; then 0..4 token / \
          character level mutations (meta-data blocks from a second dictionary right after a name; an unused terminal definition from a third dictionary appended at the end; insert / replace with a dictionary of 100 entries incl. greedy \
          operators, groups, several modifiers, reserved names, Rust keywords, dotted names, huge \
          integers, broken strings and regexes; delete, swap, duplicate, truncate) x {LR,GLR} x table \
